@@ -101,8 +101,12 @@ pub fn run(op: &str, args: &[&str]) -> Option<String> {
                     let files = it.next().unwrap_or("");
                     if !files.is_empty() {
                         for f in files.split(',') {
+                            /* a leading NUL marks a file that exists but is empty */
                             let fname = text(f);
-                            std::fs::write(p.join(&fname), format!(" content of {} \n", fname)).unwrap();
+                            match fname.strip_prefix('\0') {
+                                Some(n) => std::fs::write(p.join(n), b"").unwrap(),
+                                None => std::fs::write(p.join(&fname), format!(" content of {} \n", fname)).unwrap(),
+                            }
                         }
                     }
                 }
